@@ -536,7 +536,7 @@ def run_batched(binary, lines, batch, timeout):
         out += C.run_lines(binary, lines[i:i + batch], timeout=timeout)
     late = [i for i, o in enumerate(out) if o == "TIMEOUT"]
     if late:
-        redo = C.run_lines(binary, [lines[i] for i in late], timeout=3 * timeout)
+        redo = C.run_lines(binary, [lines[i] for i in late], timeout=timeout)
         for i, o in zip(late, redo):
             out[i] = o
     return out
@@ -544,7 +544,7 @@ def run_batched(binary, lines, batch, timeout):
 
 def both(ctx, lines):
     thorough = ctx["tier"] == "thorough"
-    batch, timeout = (1600, 2400) if thorough else (4000, 900)
+    batch, timeout = (1600, 2400) if thorough else (4000, 400)
     impl = run_batched(C.VH(UNIT), lines, batch, timeout)
     model = run_batched(C.VRUN(UNIT), lines, batch, timeout) if ctx["have_model"] else None
     # a case the machine could not finish in time is not a disagreement: it is reported as unchecked
@@ -633,9 +633,11 @@ def run(ctx):
                                                     "max_expanded_size_log2": max(bucket(m[2]) for m in meta.values())})
 
     olines = [s.line("thash.oracle") for s, _, _ in scripts]
-    oout = C.run_lines(C.VH(UNIT), olines)
+    oout = run_batched(C.VH(UNIT), olines, 4000, 2400 if thorough else 400)
+    if "TIMEOUT" in oout:
+        rep.add_broken("timeout", "thash.oracle", "%d cases not finished within the time limit" % oout.count("TIMEOUT"))
     for l, o in zip(olines, oout):
-        if not o.startswith("OK"):
+        if not o.startswith("OK") and o != "TIMEOUT":
             rep.add_failure("thash.oracle", l, o, "OK", "implementation-level oracle: a routine disagrees with the independent tree hash")
     rep.streams["thash.oracle"] = {"cases": len(olines), "routine_checks": sum(int(o.split(" ")[1]) for o in oout if o.startswith("OK "))}
     rep.evaluations += len(olines)
@@ -654,9 +656,12 @@ def run(ctx):
         # serialize the last created node: strip the ops, keep the allocations
         toks = [t for t in s.toks if t[0] in "sabp"]
         slines.append("thash.ser " + " ".join(toks))
-    souts = C.run_lines(C.VH(UNIT), slines)
+    souts = run_batched(C.VH(UNIT), slines, 4000, 2400 if thorough else 400)
     for s, so in zip(ser_scripts, souts):
         parts = so.split(" ")
+        if so == "TIMEOUT":
+            rep.add_broken("timeout", "thash.ser", "serialization helper did not finish within the time limit")
+            continue
         if len(parts) != 2:
             rep.add_broken("harness", "thash.ser", so)
             continue
